@@ -4,24 +4,17 @@
    The interpolation term  int(float64(off)/float64(dur) * float64(delta))  is
    the binary64 function interp_f64 of Model/Staged.v. The cursor theorems hold
    for it as it is. The shape theorems (within targets, monotone) are proved
-   for every interpolation term that satisfies four elementary facts
-   (interp_facts); that interp_f64 satisfies them is NOT yet proved in Coq
-   (theorems named ..._partial): the harness checks those facts, and closeness
-   to the exact rational value, on every output of the implementation
-   (predicate interp_ok). *)
-From F1 Require Import Base.Prelude Base.F64 Model.Staged Proofs.StagedProofs.
+   for interp_f64 itself from Flocq's correct-rounding theorems
+   (Proofs/F64Facts.v), for every stage whose duration is an int64 number of
+   nanoseconds (<= 2^63) and whose target difference is exactly representable
+   in binary64 (|delta| < 2^53; beyond that Go's own float64(delta) conversion
+   already rounds the configured target). The harness additionally evaluates
+   the same facts, and closeness to the exact rational value, on every output
+   of the implementation (predicate interp_ok). *)
+From F1 Require Import Base.Prelude Base.F64 Model.Staged Proofs.StagedProofs Proofs.F64Facts Proofs.F64Close.
 
-Record interp_facts (interp : Z -> Z -> Z -> Z) : Prop := {
-  if_up : forall off dur delta,
-    0 <= off <= dur -> 0 < dur -> 0 <= delta -> 0 <= interp off dur delta <= delta;
-  if_down : forall off dur delta,
-    0 <= off <= dur -> 0 < dur -> delta <= 0 -> delta <= interp off dur delta <= 0;
-  if_mono_up : forall off1 off2 dur delta,
-    0 <= off1 <= off2 -> off2 <= dur -> 0 < dur -> 0 <= delta ->
-    interp off1 dur delta <= interp off2 dur delta;
-  if_mono_down : forall off1 off2 dur delta,
-    0 <= off1 <= off2 -> off2 <= dur -> 0 < dur -> delta <= 0 ->
-    interp off2 dur delta <= interp off1 dur delta }.
+(* the (duration, target difference) pairs covered by the shape theorems *)
+Definition f64_exact (dur delta : Z) : Prop := dur <= 2 ^ 63 /\ Z.abs delta < 2 ^ 53.
 
 (* Queried at non-decreasing times, the stateful cursor of the calculator
    answers exactly like the stateless reference staged_ref at the elapsed
@@ -72,21 +65,89 @@ Proof. reflexivity. Qed.
 Print Assumptions C10_total_duration.
 
 (* Never outside the stage's two targets; monotone within a stage. *)
-Theorem C10_within_targets_partial : forall interp, interp_facts interp ->
-  forall l e rem st s r,
+Theorem C10_within_targets : forall l e rem st s r,
   0 <= e -> advance (chain 0 l) 0 e = (rem, st) -> rem = s :: r ->
-  Z.min (s_from s) (s_to s) <= staged_ref interp l e <= Z.max (s_from s) (s_to s).
-Proof. intros interp [A B C D]. exact (between_targets interp A B). Qed.
-Print Assumptions C10_within_targets_partial.
+  f64_exact (s_dur s) (s_to s - s_from s) ->
+  Z.min (s_from s) (s_to s) <= staged_ref interp_f64 l e <= Z.max (s_from s) (s_to s).
+Proof.
+  apply (between_targets interp_f64 f64_exact).
+  - intros off dur delta [H1 H2] Ho Hd Hde. apply interp_f64_up; lia.
+  - intros off dur delta [H1 H2] Ho Hd Hde. apply interp_f64_down; lia.
+Qed.
+Print Assumptions C10_within_targets.
 
-Theorem C10_monotone_in_stage_partial : forall interp, interp_facts interp ->
-  forall l e1 e2 rem st s r,
+Theorem C10_monotone_in_stage : forall l e1 e2 rem st s r,
   0 <= e1 <= e2 ->
   advance (chain 0 l) 0 e1 = (rem, st) -> advance (chain 0 l) 0 e2 = (rem, st) -> rem = s :: r ->
-  (s_from s <= s_to s -> staged_ref interp l e1 <= staged_ref interp l e2) /\
-  (s_to s <= s_from s -> staged_ref interp l e2 <= staged_ref interp l e1).
-Proof. intros interp [A B C D]. exact (monotone_in_stage interp C D). Qed.
-Print Assumptions C10_monotone_in_stage_partial.
+  f64_exact (s_dur s) (s_to s - s_from s) ->
+  (s_from s <= s_to s -> staged_ref interp_f64 l e1 <= staged_ref interp_f64 l e2) /\
+  (s_to s <= s_from s -> staged_ref interp_f64 l e2 <= staged_ref interp_f64 l e1).
+Proof.
+  apply (monotone_in_stage interp_f64 f64_exact).
+  - intros off1 off2 dur delta [H1 H2] Ho H3 Hd Hde. apply interp_f64_mono_up; lia.
+  - intros off1 off2 dur delta [H1 H2] Ho H3 Hd Hde. apply interp_f64_mono_down; lia.
+Qed.
+Print Assumptions C10_monotone_in_stage.
+
+(* "Within 1 of the exact value": the value differs from the exact rational interpolation
+   e = from + (to-from) * offset / duration by less than 1 + 5*|to-from|/2^53 (truncation, plus
+   four binary64 roundings of relative error 2^-53 each). Over the integers, with v the value
+   minus the stage's start target:  2^53 * |v*dur - offset*delta| < 2^53*dur + 5*|delta|*dur. *)
+Theorem C10_close : forall l e rem st s r,
+  0 <= e -> advance (chain 0 l) 0 e = (rem, st) -> rem = s :: r ->
+  f64_exact (s_dur s) (s_to s - s_from s) ->
+  let v := staged_ref interp_f64 l e - s_from s in
+  let delta := s_to s - s_from s in
+  2 ^ 53 * Z.abs (v * s_dur s - (e - st) * delta) < 2 ^ 53 * s_dur s + 5 * Z.abs delta * s_dur s.
+Proof.
+  intros l e rem st s r He Ha -> [Hd Hde] v delta.
+  destruct (advance_selected _ _ _ _ _ _ He Ha) as [H1 H2].
+  assert (Ev : v = interp_f64 (e - st) (s_dur s) delta).
+  { unfold v, staged_ref. rewrite Ha. cbn [stage_rate]. fold delta. lia. }
+  rewrite Ev. apply interp_f64_close; lia.
+Qed.
+Print Assumptions C10_close.
+
+Theorem C10_ramp_close : forall from to dur e,
+  0 < dur -> 0 <= e <= dur -> f64_exact dur (to - from) ->
+  let v := ramp_ref interp_f64 from to dur e - from in
+  2 ^ 53 * Z.abs (v * dur - e * (to - from)) < 2 ^ 53 * dur + 5 * Z.abs (to - from) * dur.
+Proof.
+  intros from to dur e Hd He [H1 H2] v.
+  assert (Ev : v = interp_f64 e dur (to - from)).
+  { unfold v, ramp_ref. replace (dur <? e) with false by lia. lia. }
+  rewrite Ev. apply interp_f64_close; lia.
+Qed.
+Print Assumptions C10_ramp_close.
+
+(* Every value the model produces satisfies the predicate the harness evaluates on the
+   implementation's outputs. *)
+Theorem C10_interp_ok_sound : forall off dur delta,
+  0 <= off <= dur -> 0 < dur -> f64_exact dur delta ->
+  interp_ok off dur delta (interp_f64 off dur delta) = true.
+Proof.
+  intros off dur delta Ho Hd [H1 H2]. unfold interp_ok.
+  pose proof (interp_f64_close off dur delta Ho ltac:(lia) H2) as HC.
+  apply andb_true_iff. split.
+  - destruct (delta >=? 0) eqn:E.
+    + pose proof (interp_f64_up off dur delta Ho ltac:(lia) ltac:(lia)). apply andb_true_iff. split; lia.
+    + pose proof (interp_f64_down off dur delta Ho ltac:(lia) ltac:(lia)). apply andb_true_iff. split; lia.
+  - apply Z.ltb_lt. exact HC.
+Qed.
+Print Assumptions C10_interp_ok_sound.
+
+(* The literal reading |v - e| <= 1 is false of the binary64 term: a two-hour stage
+   from 0 to 1293707, queried 4936467376307 ns after its start, yields 886991 while the exact
+   value is 886992 + 49/7200000000000. (Recorded as a known finding: the excess is bounded by
+   C10_close.) *)
+Theorem C10_within_one_refuted : exists off dur delta,
+  0 <= off <= dur /\ 0 < dur /\ f64_exact dur delta /\
+  within_one off dur delta (interp_f64 off dur delta) = false.
+Proof.
+  exists 4936467376307, 7200000000000, 1293707.
+  split; [lia|]. split; [lia|]. split; [unfold f64_exact; lia|]. vm_compute. reflexivity.
+Qed.
+Print Assumptions C10_within_one_refuted.
 
 (* Ramp: same for the single segment. *)
 Theorem C10_ramp_refines : forall t ts from to dur,
@@ -101,18 +162,21 @@ Theorem C10_ramp_zero_after : forall from to dur e,
 Proof. exact (ramp_zero_after interp_f64). Qed.
 Print Assumptions C10_ramp_zero_after.
 
-Theorem C10_ramp_shape_partial : forall interp, interp_facts interp ->
-  forall from to dur e1 e2,
-  0 < dur -> 0 <= e1 <= e2 -> e2 <= dur ->
-  Z.min from to <= ramp_ref interp from to dur e1 <= Z.max from to /\
-  (from <= to -> ramp_ref interp from to dur e1 <= ramp_ref interp from to dur e2) /\
-  (to <= from -> ramp_ref interp from to dur e2 <= ramp_ref interp from to dur e1).
+Theorem C10_ramp_shape : forall from to dur e1 e2,
+  0 < dur -> 0 <= e1 <= e2 -> e2 <= dur -> f64_exact dur (to - from) ->
+  Z.min from to <= ramp_ref interp_f64 from to dur e1 <= Z.max from to /\
+  (from <= to -> ramp_ref interp_f64 from to dur e1 <= ramp_ref interp_f64 from to dur e2) /\
+  (to <= from -> ramp_ref interp_f64 from to dur e2 <= ramp_ref interp_f64 from to dur e1).
 Proof.
-  intros interp [A B C D] from to dur e1 e2 Hd He H2. split.
-  - apply (ramp_between interp A B); lia.
-  - apply (ramp_monotone interp C D); lia.
+  intros from to dur e1 e2 Hd He H2 Hok. split.
+  - apply (ramp_between interp_f64 f64_exact); try assumption; try lia.
+    + intros off d delta [H3 H4] Ho Hdd Hde. apply interp_f64_up; lia.
+    + intros off d delta [H3 H4] Ho Hdd Hde. apply interp_f64_down; lia.
+  - apply (ramp_monotone interp_f64 f64_exact); try assumption; try lia.
+    + intros off1 off2 d delta [H3 H4] Ho H5 Hdd Hde. apply interp_f64_mono_up; lia.
+    + intros off1 off2 d delta [H3 H4] Ho H5 Hdd Hde. apply interp_f64_mono_down; lia.
 Qed.
-Print Assumptions C10_ramp_shape_partial.
+Print Assumptions C10_ramp_shape.
 
 (* Non-vacuity: a real profile, evaluated with the binary64 model. *)
 Example C10_example :
